@@ -42,11 +42,11 @@ THEOREMS = [
     "Cppcheck.LibValid.render_parse",
     "Cppcheck.LibValid.intValid_exact_wrap",
     "Cppcheck.LibValid.intValid_exact",
-    "Cppcheck.LibValid.intValid_exact_iff",
     "Cppcheck.LibValid.intValid_iff_partial",
     "Cppcheck.LibValid.intValid_eq_partial",
-    "Cppcheck.LibValid.intValid_iff_counterexample_swapped",
+    "Cppcheck.LibValid.loadAndCheck_render",
     "Cppcheck.LibValid.intValid_iff_counterexample_wide",
+    "Cppcheck.LibValid.old_single_value_clause_counterexample",
     "Cppcheck.LibValid.intValid_of_parse",
     "Cppcheck.LibValid.floatValid_intBounds",
     "Cppcheck.LibValid.getarg_eq",
@@ -93,20 +93,6 @@ def classify_int(v, x, impl):
     wide = any(not (I64MIN <= b <= I64MAX) for r in v for b in r[1:])
     if wide:
         return "bound-outside-int64"
-    if impl == "1" and any(r[0] == "c" and r[1] > r[2] and x in (r[1], r[2]) for r in v):
-        return "swapped-range-endpoints"
-    return None
-
-
-def classify_float(items, x, impl):
-    """real=accepted, reference=outside, and x prints (%.12g) like a float-formatted bound: the single-value clause
-    `%num% && isFloat && isEqual(tok, toString(x))` also fires on range bounds"""
-    if not impl.endswith("r=1"):
-        return None
-    for r in items:
-        for b in r[1:]:
-            if ("." in b or "e" in b or "E" in b) and fmt_g12_tostring(float(b)) == fmt_g12_tostring(x):
-                return "float-bound-12-digit-equality"
     return None
 
 
@@ -368,9 +354,6 @@ def gen_decls(rng):
 
 # ---- loader robustness stream (arbitrary / mutated XML) -----------------------------------------------------------
 
-TEXT_NEEDED = ("noreturn", "alloc", "dealloc", "realloc", "use", "call", "prefix", "suffix", "importer")
-
-
 def shipped_pool(rng, n_files):
     """top-level elements of a few shipped cfg files (python ElementTree)"""
     import glob, xml.etree.ElementTree as ET
@@ -470,42 +453,6 @@ def loader_result_class(o):
     return "ok" if o.startswith("load=0") else ("error-code" if o.startswith("load=") else ("exception" if o.startswith("throw:") else "crash"))
 
 
-def classify_loader(exe, xml_text, result):
-    """known classes of loader crashes, confirmed by a counterfactual run: the crash must disappear when exactly the
-    suspected construct is repaired"""
-    import re as _re
-    if result.startswith("throw:converting"):
-        return "loader-uncaught-strtoint"
-    def still_bad(t):
-        o = run_isolated(exe, ["X %s 3" % hx(t.encode("utf-8", "replace").decode("latin-1"))])[0]
-        return loader_result_class(o) in ("exception", "crash") and not o.startswith("throw:converting")
-    tags = "|".join(TEXT_NEEDED)
-    filled = None
-    try:
-        import xml.etree.ElementTree as ET
-        root = ET.fromstring(xml_text.split("?>", 1)[1] if xml_text.startswith("<?xml") else xml_text)
-        changed = False
-        for e in root.iter():
-            if e.tag in TEXT_NEEDED and not (e.text or "").strip():
-                e.text = "x"; changed = True
-        if changed:
-            filled = ET.tostring(root, encoding="unicode")
-    except Exception:
-        filled = None
-    if filled is None:
-        filled = _re.sub(r"<(%s)((?:\s[^>]*)?)/>" % tags, r"<\1\2>x</\1>", xml_text)
-        filled = _re.sub(r"<(%s)((?:\s[^>]*)?)>\s*</(%s)>" % (tags, tags), r"<\1\2>x</\3>", filled)
-    if filled != xml_text and not still_bad(filled):
-        return "loader-null-text"
-    fixed = _re.sub(r'(<arg\b[^>]*\bindirect=")[^"]*(")', r"\g<1>0\2", xml_text)
-    if fixed != xml_text and not still_bad(fixed):
-        return "loader-direction-indirect-range"
-    both_ = _re.sub(r'(<arg\b[^>]*\bindirect=")[^"]*(")', r"\g<1>0\2", filled)
-    if both_ != xml_text and not still_bad(both_):
-        return "loader-null-text"
-    return None
-
-
 def loader_stream(ctx, res, exe, n):
     rng = ctx.rng
     pool = shipped_pool(rng, 8 if ctx.tier != "thorough" else 30)
@@ -538,7 +485,7 @@ def loader_stream(ctx, res, exe, n):
         res.case("loader|" + op, bool(m) and m != ["hand"] or True, dict(tie="loader-robustness", op="%d bytes, mutations %s" % (len(t), m), impl=o, model="(outside the model)") if bad == 0 and cls in ("exception", "crash") else None)
         if cls in ("exception", "crash"):
             bad += 1
-            key = classify_loader(exe, t, o)
+            key = None     # every loader crash class found so far is repaired (e6ae137): a crash is a new violation
             res.violation("Library::load does not return an error for a well-formed-XML configuration: %s (mutations %s)" % (o[:120], m),
                           dict(op=op, xml=t if len(t) < 3000 else t[:3000] + "...", impl=o, mutations=m), concrete=True, key=key)
     res.extra["loader_docs"] = len(docs)
@@ -652,24 +599,19 @@ def run(ctx, res):
         xout = run_isolated(exe, [c["op"] for c in xcorp])
         for c, o in zip(xcorp, xout):
             res.case("corpus|" + c["op"], True, None)
-            bad = loader_result_class(o) in ("exception", "crash")
-            if bad and c.get("key"):
-                res.violation("%s: %s" % (c["note"], o[:100]), dict(op=c["op"], impl=o, note=c["note"]), concrete=True, key=c["key"])
-            elif bad:
-                res.violation("loader crash on a corpus document: %s: %s" % (c["note"], o[:100]), dict(op=c["op"], impl=o), concrete=True, key=None)
-            elif c.get("key"):
-                res.count("witness-gone:" + c["key"])
+            if loader_result_class(o) in ("exception", "crash"):
+                res.violation("loader crash on a corpus document (%s): %s" % (c["note"], o[:100]), dict(op=c["op"], impl=o, note=c["note"]),
+                              concrete=True, key=c.get("key"))
     if cops:
         impl, model = both(ctx, exe, drv, cops)
         correspond(ctx, res, "corpus", cops, impl, model, lambda op, out: True)
         for c, o in zip(corpus, impl):
-            if "expect_impl" in c:
-                # a stored witness of a finding: KNOWN-FINDING only while it still reproduces on the real code
-                if o == c["expect_impl"]:
-                    res.violation("%s: %s gives %s" % (c["note"], describe(c["op"]), o), dict(op=c["op"], impl=o, note=c["note"]), concrete=True, key=c["key"])
-                else:
-                    res.notes.append("witness no longer reproduces: %s now gives %s" % (describe(c["op"]), o))
-                    res.count("witness-gone:" + c["key"])
+            # "expect" = the verdict the property demands for this case; "key" = known-finding class if the real code deviates
+            if "expect" in c and o != c["expect"]:
+                res.violation("%s: %s gives %s, the declared meaning is %s" % (c["note"], describe(c["op"]), o, c["expect"]),
+                              dict(op=c["op"], impl=o, documented=c["expect"], note=c["note"]), concrete=True, key=c.get("key"))
+            elif c.get("key"):
+                res.count("witness-gone:" + c["key"])
 
     # ---- C1: int path -------------------------------------------------------------------------------------------
     ops, meta = [], []
@@ -739,7 +681,7 @@ def run(ctx, res):
                 continue
             if o != want:
                 res.violation("isFloatArgValid disagrees with the (correctly rounded) meaning of %r at %r: real=%s reference=%s" % (text, d, o, want),
-                              dict(op=op, valid=text, x=repr(d), impl=o, reference=want), concrete=True, key=classify_float(items, d, o))
+                              dict(op=op, valid=text, x=repr(d), impl=o, reference=want), concrete=True, key=None)
 
     # ---- C3: parts ---------------------------------------------------------------------------------------------
     ops = []
@@ -791,8 +733,6 @@ def run(ctx, res):
             if abs(x) > 2 ** 62:
                 continue
             ref = ref_mem_int(v, x)
-            if any(r[0] == "c" and r[1] > r[2] for r in v):
-                ref = None      # swapped range: known finding, checked in-process
             cases.append(dict(valid=text, lit=str(x), op="I %s %d" % (hx(text), x), ref=ref))
     for text in rng.sample(FLOAT_TEXTS, 8 if not thorough else len(FLOAT_TEXTS)):
         for d in probes_float(rng, text, 3):
